@@ -70,6 +70,21 @@ PDEFS += [
     {"items": [VP, RF], "vars": {"x": "xv"}},
 ]
 VAR_PDEFS = list(range(VAR_PDEFS_START, len(PDEFS)))
+# transformations that set rule attributes: the rule must get copies, the configuration must stay what it is
+SF = {"type": "set_field", "id": "sf", "fields": ["a", "b"]}
+SF2 = {"type": "set_field", "id": "sf2", "fields": ["c"], "cond": ["product", 2]}
+AF = {"type": "add_field", "id": "af", "field": "c"}
+AFL = {"type": "add_field", "id": "afl", "field": ["d", "a"]}
+RMF = {"type": "remove_field", "id": "rmf", "field": "a"}
+RMFL = {"type": "remove_field", "id": "rmfl", "field": ["b", "zz", "g"]}
+SA = {"type": "set_custom_attribute", "id": "sa", "attribute": "owner", "value": "soc"}
+SA2 = {"type": "set_custom_attribute", "id": "sa2", "attribute": "owner", "value": "lin", "cond": ["product", 2]}
+CL = {"type": "change_logsource", "id": "cl", "product": 2, "cond": ["product", 1]}
+FIELD_PDEFS_START = len(PDEFS)
+for _perm in itertools.permutations([SF, AF, RMF]):
+    PDEFS.append(list(_perm))                       # set / add / remove in every order
+PDEFS += [[SF, AFL, RMFL, SA], [AF, SF2, AFL], [SA, CL, SA2, SF2, AF], [FM, AFL, RMFL, ST], [SF, FM2, FM, AF, SA]]
+FIELD_PDEFS = list(range(FIELD_PDEFS_START, len(PDEFS)))
 def pd_items(pd): return pd["items"] if isinstance(pd, dict) else pd
 def pd_vars(pd): return pd.get("vars", {}) if isinstance(pd, dict) else {}
 OPTIONS = [{}, {"index": "prod"}, {"index": "dev*", "ns": "n1"}, {"ns": "n2"}]
@@ -84,7 +99,7 @@ CLASSES = [
     {"ne": True, "bk": [VP], "fmt": {}, "bkvars": {}, "fmtvars": {}},
     {"ne": False, "bk": [VP], "fmt": {"1": [FC]}, "bkvars": {"cv": "c3"}, "fmtvars": {"1": {"cv": "fmt1"}}},
 ]
-FMTS = [0, 1, 2]
+FMTS = [0, 1, 2, 3]
 ERRTAG = {"SigmaValueError": 1, "SigmaPlaceholderError": 2, "SigmaTypeError": 3, "SigmaConditionError": 4,
           "SigmaRegularExpressionError": 5, "SigmaModifierError": 6, "SigmaTransformationError": 7,
           "SigmaSecurityError": 8, "SigmaConfigurationError": 9}
@@ -217,7 +232,7 @@ def rand_op(rng, nb, rule_fn):
     if k == "new":
         return ["new", rng.randrange(len(CLASSES)), rng.choice([None, 0, 0, 1, 2]), rng.random() < 0.3, rng.choice(OPTIONS + [{}, {}])]
     b = rng.randrange(nb)
-    fmt = (b + 2) % 3 if rng.random() < 0.85 else rng.choice([0, 1, 2])
+    fmt = (3 if b == 0 else (b + 2) % 3) if rng.random() < 0.85 else rng.choice([0, 1, 2, 3])
     if k == "init": return ["init", b, fmt]
     if k == "rule": return ["rule", b, rule_fn(), fmt]
     if k == "collf": return ["collf", b, [rule_fn() for _ in range(rng.choice([2, 2, 3]))], rng.choice(FILTERS), fmt]
@@ -241,7 +256,7 @@ def rand_history(rng, n, sharing):
         ops.append(op)
     if ops[-1][0] not in ("rule", "coll", "collf"):
         b = rng.randrange(nb)
-        fmt = (b + 2) % 3 if rng.random() < 0.85 else rng.choice([0, 1, 2])
+        fmt = (3 if b == 0 else (b + 2) % 3) if rng.random() < 0.85 else rng.choice([0, 1, 2, 3])
         ops[-1] = ["rule", b, rule_fn(), fmt] if rng.random() < 0.7 else ["coll", b, [rule_fn(), rule_fn()], fmt]
     return ops
 
@@ -280,6 +295,14 @@ def gen_history(tier, rng):
             out.append(mk_case([d, 1, 0], [["new", cls, 0, False], ["load", R_HOSTS], ["init", 0, 2], ["coll", 0, [R_WIN, R_HOSTS], 2], ["coll", 0, [R_HOSTS_L, R_HOSTS], 2]]))
     # backend options: backend with options then a fresh backend without (and the reverse), same class, with class-level
     # pipelines with / without vars and items, own or shared user pipeline objects that read the variables
+    # rule attributes set by transformations: several conversions through the same pipeline object, observed through the
+    # "fields" output format (query + processed rule's field list, custom attributes, log source)
+    for d in FIELD_PDEFS:
+        for cls in (0, 1):
+            out.append(mk_case([d, 1, 0], [["new", cls, 0, False], ["rule", 0, R_WIN, 3], ["rule", 0, R_WIN, 3], ["rule", 0, R_C, 3]]))
+            out.append(mk_case([d, 1, 0], [["new", cls, 0, True], ["coll", 0, [R_WIN, R_LIN, R_WIN], 3]]))
+            out.append(mk_case([d, 1, 0], [["new", cls, 0, False], ["new", cls, 0, False], ["coll", 0, [R_C, R_LIN], 3], ["coll", 1, [R_LIN, R_C], 3]]))
+            out.append(mk_case([d, d, 0], [["new", cls, 0, False], ["rule", 0, R_LIN, 3], ["new", cls, 1, False], ["rule", 1, R_WIN, 3], ["rule", 0, R_WIN, 3]]))
     optcases = []
     for cls in (0, 1, 4, 5, 6):
         for d in VAR_PDEFS[:3]:
@@ -316,6 +339,7 @@ def gen_history(tier, rng):
         users = [rng.randrange(len(PDEFS)) for _ in range(3)]
         if i % 4 == 1: users[0] = rng.choice(FILE_PDEFS)
         if i % 4 == 2: users[0] = rng.choice(VAR_PDEFS)
+        if i % 4 == 3: users[0] = rng.choice(FIELD_PDEFS)
         out.append(mk_case(users, rand_history(rng, n, sharing=(i % 3 != 0))))
     return [c for c in out if valid(c["ops"])]
 
@@ -330,6 +354,12 @@ def c_item(d):
     elif d["type"] == "field_name_mapping": tr = "(TFieldMap " + clist(f"({cstr(a)}, {cstr(b)})" for a, b in d["mapping"]) + ")"
     elif d["type"] == "file_placeholders": tr = f"(TFile {d['src']})"
     elif d["type"] == "value_placeholders": tr = "TVars"
+    elif d["type"] == "set_field": tr = "(TSetField " + clist(cstr(x) for x in d["fields"]) + ")"
+    elif d["type"] in ("add_field", "remove_field"):
+        l = d["field"] if isinstance(d["field"], list) else [d["field"]]
+        tr = f"({'TAddField' if d['type'] == 'add_field' else 'TRemoveField'} " + clist(cstr(x) for x in l) + ")"
+    elif d["type"] == "set_custom_attribute": tr = f"(TSetAttr {cstr(d['attribute'])} {cstr(d['value'])})"
+    elif d["type"] == "change_logsource": tr = f"(TSetProduct {d['product']})"
     else: tr = "TFail"
     return f"(Build_item {iid} {cond} {tr})"
 
@@ -338,11 +368,11 @@ MODOF = {"sw": 1, "ph": 2, "re": 3}
 def c_rule(r):
     if r["bad"]:
         _, tag, mods = BAD[r["bad"]]
-        return f"(Build_rule (Some {tag}) {clist(str(m) for m in mods)} 0 [] [] [])"
+        return f"(Build_rule (Some {tag}) {clist(str(m) for m in mods)} 0 [] [] [] [])"
     mods = [MODOF[k] for _, items in r["dets"] for _, k, _ in items if k in MODOF]
     dets = clist("(" + cstr(n) + ", " + clist(f"(Build_ditem {cstr(f)} {cstr(t)} {KIND[k]})" for f, k, t in items) + ")"
                  for n, items in r["dets"])
-    return f"(Build_rule None {clist(str(m) for m in mods)} {r['product']} {dets} {clist(cstr(c) for c in r['conds'])} {clist(cstr(f) for f in r.get('fields', []))})"
+    return f"(Build_rule None {clist(str(m) for m in mods)} {r['product']} {dets} {clist(cstr(c) for c in r['conds'])} {clist(cstr(f) for f in r.get('fields', []))} [])"
 
 def c_tree(t):
     if t[0] == "id": return f"(PId {cstr(t[1])})"
@@ -572,7 +602,7 @@ PROPERTY = Property(
     rule="operation histories over {load (valid / invalid document), new backend (7 classes: plain, not-equals mode, with class-level "
          "backend+format pipelines, not-equals with format pipelines, class-level pipelines with vars but no items, with a class-level "
          "value_placeholders reader and no / some vars; user pipeline object shared or not; collect_errors; backend options), init pipeline, "
-         "convert collection, convert rule} x 3 output formats x 6 pipeline definitions (state, state conditions, chained field mappings, "
+         "convert collection, convert rule} x 4 output formats x 6 pipeline definitions (state, state conditions, chained field mappings, "
          "rule failure) + 13 pipeline definitions with file_placeholders items over 14 external sources (plaintext / csv / json / yaml files "
          "in a temp dir: working, empty, filtered; failing at security check, fetch, csv column lookup, JSON / YAML decoding, jq expression, "
          "non-scalar jq result after good values); rules share condition strings, detection names, field names and `fields` lists; failing "
@@ -580,7 +610,10 @@ PROPERTY = Property(
          "rendering inside a negated not-equals leaf (placeholder error and backend NotImplementedError); 'failing conversion then probe' for "
          "every pipeline definition x failing rule x probe, on the same and on another backend sharing the pipeline object; 5 pipeline definitions "
          "with vars and value_placeholders readers x option histories (backend with options then a backend without, reverse, different options; "
-         "own / shared / no user pipeline object; probe by convert_rule, after a later init of the other backend, by convert). Exhaustive: all histories of <= 1 (quick) / <= 2 "
+         "own / shared / no user pipeline object; probe by convert_rule, after a later init of the other backend, by convert); 11 pipeline "
+         "definitions with set_field / add_field / remove_field (every order), set_custom_attribute, change_logsource, observed through a 4th "
+         "output format that emits the processed rule's field list, custom attributes and log source; configuration of every transformation "
+         "object and vars of every pipeline definition compared with their initial value after every operation. Exhaustive: all histories of <= 1 (quick) / <= 2 "
          "(thorough) operations from a 17-operation alphabet after two backend creations in 3 sharing setups x all 14 probes (6 of them at length 2), sampled at the next "
          "length (70 / 400 histories x 2 probes per setup); 400 / 6000 random histories of 2..8 operations incl. collections with a filter document. The last operation is the probe; oracle = same probe with new class objects, new "
          "pipeline objects from the same YAML and cleared caches. non-trivial = probe is a conversion preceded by at least one "
